@@ -1,6 +1,6 @@
 /-
 Model C (lock-granularity LTS) of `ReplaySubject` used from several threads.
-Rust sources followed: /repo/src/subjects/replay_subject.rs (l.29-97), /repo/src/utils/ready_set_go.rs (l.3-15),
+Rust sources followed: /repo/src/subjects/replay_subject.rs (l.28-101, as of fix 6cfcdd3), /repo/src/utils/ready_set_go.rs (l.3-15),
 /repo/src/subjects/subject.rs (l.31-97), /repo/src/observer.rs (l.38-71), /repo/src/observable.rs (l.23-40),
 /repo/src/subscription.rs (l.20-22), /repo/src/internals/function_wrapper.rs.
 
@@ -8,31 +8,35 @@ Every outer observer `o` gets (inside its `subscribe` call) a private forwarder 
 the inner `Subject`; its `next` callback is `move |x| s_next.next(x)` (replay_subject.rs l.88).  The record `Obs` holds
 the slots of both.  Micro-steps (label kinds):
 
-`ReplaySubject::next(v)` (l.29-32)
-  * `push`    : `items.write().push(v)`                                                   (l.30)
+`ReplaySubject::next(v)` (l.28-31)
+  * `push`    : `items.write().push(v)`                                                   (l.29)
   * `snap`    : inner `Subject::next` → `fetch_observers` (read lock of the inner map)     (subject.rs l.31-35)
   * `fetch`   : read `F(o).fn_next` (function_wrapper.rs `fetch_function`); absent ⇒ skip `o`
   * `ofetch`  : the forwarder callback started: `s_next.next(x)` reads `o.fn_next`; absent ⇒ nothing delivered
   * `deliver` : the subscriber's own callback is invoked, no lock held (ghost log of `o` grows)
   * `ret`     : broadcast finished
-`observable().subscribe(..)` with a fresh outer observer `o` (l.42-97)
+`observable().subscribe(..)` with a fresh outer observer `o` (l.40-101)
   * `isSub1`  : `inner_subscribe`: `observer.is_subscribed()`                              (observable.rs l.29)
-  * `setTd`   : `s.set_on_unsubscribe(..)`                                                 (l.50-56)
-  * `hist`    : `let history = items.read().unwrap().clone()`                              (l.60)
+  * `setTd`   : `s.set_on_unsubscribe(..)`                                                 (l.50-54)
+  * `hist`    : `let history = items.read().unwrap().clone()`                              (l.59)
   * `serial`  : `ready_set_go(..).subscribe(..)` creates `F(o)`, `inner_subscribe`s it into `subject.observable()`:
                 the three `is_subscribed()` checks on the still thread-private `F(o)` are always true and are folded
                 into this step, which is `*serial += 1`                                     (subject.rs l.68-72)
   * `setTdF`  : `F(o).set_on_unsubscribe(..)`                                              (subject.rs l.76-85)
   * `insert`  : `observers.write().insert(serial, F(o))`                                   (subject.rs l.87-91)
-  * `rdErr`, `rdCompl` : the replay closure reads `was_error`, `was_completed`             (l.74-75)
-  * `hfetch`  : replay loop `s.next(x)`: read `o.fn_next`; absent ⇒ this history item is skipped   (l.76-78)
+  * `rdErr`, `rdCompl` : the replay closure reads `was_error`, `was_completed`             (l.72-73)
+  * `hfetch`  : replay loop `s.next(x)`: read `o.fn_next`; absent ⇒ this history item is skipped   (l.74-76)
   * `hdeliver`: the subscriber's callback is invoked with the history item
   * `hdone`   : the replay loop is exhausted (`was_error = None`, `was_completed = false`: nothing else to send)
-  * `setSbsc` : `*sbsc.write() = Some(subscription)`                                       (l.68)
+  * `setSbsc` : `*sbsc.write() = Some(live.clone())`                                       (l.94)
+  * `isSubEnd`: `if !s_alive.is_subscribed()` (l.95, added by fix 6cfcdd3): subscribed ⇒ the call returns; otherwise
+                the subscriber ended during the replay and the SUBSCRIBING thread runs `live.unsubscribe()` (l.98):
+                `takeUnsub` (already taken by a concurrent teardown ⇒ return), then `F(o).unsubscribe()` =
+                `fClrNext`, `fClrErr`, `fClrCompl`, `fReadTd`, `fRemove`, `fClrTd` (pcs `e5 .. e9c`), then the call returns
   (terminals are not modelled: `was_error = None`, `was_completed = false` throughout)
 `Observer::unsubscribe` of the outer observer `o` (observer.rs l.55-62)
   * `clrNext`, `clrErr`, `clrCompl`, `readTd` (absent ⇒ go to `clrTd`)
-  * `readSbsc`: the teardown reads `sbsc` (l.52); `None` ⇒ nothing
+  * `readSbsc`: the teardown reads `sbsc` (l.51); `None` ⇒ nothing
   * `takeUnsub`: `Subscription::unsubscribe` → `call_and_clear_if_available` takes `fn_unsubscribe` (subscription.rs l.21)
   * `fClrNext`, `fClrErr`, `fClrCompl`, `fReadTd`, `fRemove`, `fClrTd` : `F(o).unsubscribe()`
   * `clrTd`
@@ -65,6 +69,9 @@ inductive Pc where
   | s8 (o : Nat) (h : List Entry)                        -- replay loop
   | s8d (o : Nat) (x : Entry) (h : List Entry)           -- fetched `o.fn_next`, about to call it with `x`
   | s9 (o : Nat)
+  | s10 (o : Nat)                                        -- `is_subscribed` check after `setSbsc` (l.95)
+  | e5 (o : Nat) | e6 (o : Nat) | e7 (o : Nat) | e8 (o : Nat) | e9 (o : Nat) | e9r (o : Nat) | e9c (o : Nat)
+                                                         -- `live.unsubscribe()` by the subscribing thread (l.98)
   | u0 (o : Nat) | u1 (o : Nat) | u2 (o : Nat) | u3 (o : Nat) | u4 (o : Nat) | u5 (o : Nat)
   | u6 (o : Nat) | u7 (o : Nat) | u8 (o : Nat) | u9 (o : Nat) | u9r (o : Nat) | u9c (o : Nat) | u10 (o : Nat)
 deriving Repr, DecidableEq, Inhabited
@@ -72,6 +79,7 @@ deriving Repr, DecidableEq, Inhabited
 inductive Kind where
   | call | push | snap | fetch | ofetch | deliver | ret
   | isSub1 | setTd | hist | serial | setTdF | insert | rdErr | rdCompl | hfetch | hdeliver | hdone | setSbsc
+  | isSubEnd
   | clrNext | clrErr | clrCompl | readTd | readSbsc | takeUnsub
   | fClrNext | fClrErr | fClrCompl | fReadTd | fRemove | fClrTd | clrTd
 deriving Repr, DecidableEq, Inhabited
@@ -90,6 +98,9 @@ def Pc.kind : Pc → Kind
   | .s8 _ (_ :: _) => .hfetch
   | .s8d .. => .hdeliver
   | .s9 _ => .setSbsc
+  | .s10 _ => .isSubEnd
+  | .e5 _ => .takeUnsub | .e6 _ => .fClrNext | .e7 _ => .fClrErr | .e8 _ => .fClrCompl | .e9 _ => .fReadTd
+  | .e9r _ => .fRemove | .e9c _ => .fClrTd
   | .u0 _ => .clrNext | .u1 _ => .clrErr | .u2 _ => .clrCompl | .u3 _ => .readTd | .u4 _ => .readSbsc
   | .u5 _ => .takeUnsub | .u6 _ => .fClrNext | .u7 _ => .fClrErr | .u8 _ => .fClrCompl | .u9 _ => .fReadTd
   | .u9r _ => .fRemove | .u9c _ => .fClrTd | .u10 _ => .clrTd
@@ -102,6 +113,7 @@ def Pc.inNext : Pc → Bool
 /-- the thread is inside a `subscribe` call -/
 def Pc.inSub : Pc → Bool
   | .s0 _ | .s1 _ | .s2 _ | .s3 .. | .s4 .. | .s5 .. | .s6 .. | .s7 .. | .s8 .. | .s8d .. | .s9 _ => true
+  | .s10 _ | .e5 _ | .e6 _ | .e7 _ | .e8 _ | .e9 _ | .e9r _ | .e9c _ => true
   | _ => false
 
 structure Obs where
@@ -114,7 +126,8 @@ structure Obs where
   fSer : Option Nat := none                  -- forwarder: serial captured by the closures
   used : Option Nat := none                  -- ghost: thread whose `subscribe` call created this observer
   ins : Bool := false                        -- ghost: forwarder was inserted into the inner map
-  subDone : Bool := false                    -- ghost: the `subscribe` call has returned
+  subDone : Bool := false                    -- ghost: the `subscribe` call has installed the live subscription (`setSbsc`
+                                             -- done; all that remains of the call is the `is_subscribed` check of l.95)
   rlog : List Entry := []                    -- ghost: deliveries, NEWEST FIRST
 deriving Repr, Inhabited
 
@@ -187,7 +200,21 @@ def stepT (s : State) (t : Nat) : Option State :=
     some { s with obs := setObs s o { s.obs o with rlog := x :: (s.obs o).rlog }
                   threads := setThr s t { th with pc := .s8 o h } }
   | .s9 o => some { s with obs := setObs s o { s.obs o with sbsc := true, subDone := true }
-                           threads := setThr s t { th with pc := .idle } }
+                           threads := setThr s t { th with pc := .s10 o } }
+  | .s10 o => some { s with threads := setThr s t { th with pc := if (s.obs o).fnNext then .idle else .e5 o } }
+  | .e5 o =>
+    some { s with obs := setObs s o { s.obs o with subTaken := true }
+                  threads := setThr s t { th with pc := if (s.obs o).subTaken then .idle else .e6 o } }
+  | .e6 o => some { s with obs := setObs s o { s.obs o with fFnNext := false }
+                           threads := setThr s t { th with pc := .e7 o } }
+  | .e7 o => some { s with threads := setThr s t { th with pc := .e8 o } }
+  | .e8 o => some { s with threads := setThr s t { th with pc := .e9 o } }
+  | .e9 o => some { s with threads := setThr s t { th with pc := if (s.obs o).fTd then .e9r o else .e9c o } }
+  | .e9r o =>
+    some { s with map := s.map.filter (fun e => some e.1 != (s.obs o).fSer)
+                  threads := setThr s t { th with pc := .e9c o } }
+  | .e9c o => some { s with obs := setObs s o { s.obs o with fTd := false }
+                            threads := setThr s t { th with pc := .idle } }
   | .u0 o => some { s with obs := setObs s o { s.obs o with fnNext := false }
                            threads := setThr s t { th with pc := .u1 o } }
   | .u1 o => some { s with threads := setThr s t { th with pc := .u2 o } }
@@ -280,7 +307,7 @@ def Kind.toStr : Kind → String
   | .deliver => "deliver" | .ret => "ret"
   | .isSub1 => "isSub1" | .setTd => "setTd" | .hist => "hist" | .serial => "serial" | .setTdF => "setTdF"
   | .insert => "insert" | .rdErr => "rdErr" | .rdCompl => "rdCompl" | .hfetch => "hfetch"
-  | .hdeliver => "hdeliver" | .hdone => "hdone" | .setSbsc => "setSbsc"
+  | .hdeliver => "hdeliver" | .hdone => "hdone" | .setSbsc => "setSbsc" | .isSubEnd => "isSubEnd"
   | .clrNext => "clrNext" | .clrErr => "clrErr" | .clrCompl => "clrCompl" | .readTd => "readTd"
   | .readSbsc => "readSbsc" | .takeUnsub => "takeUnsub"
   | .fClrNext => "fClrNext" | .fClrErr => "fClrErr" | .fClrCompl => "fClrCompl" | .fReadTd => "fReadTd"
@@ -289,7 +316,7 @@ def Kind.toStr : Kind → String
 def Kind.all : List Kind :=
   [.call, .push, .snap, .fetch, .ofetch, .deliver, .ret,
    .isSub1, .setTd, .hist, .serial, .setTdF, .insert, .rdErr, .rdCompl, .hfetch, .hdeliver, .hdone, .setSbsc,
-   .clrNext, .clrErr, .clrCompl, .readTd, .readSbsc, .takeUnsub,
+   .isSubEnd, .clrNext, .clrErr, .clrCompl, .readTd, .readSbsc, .takeUnsub,
    .fClrNext, .fClrErr, .fClrCompl, .fReadTd, .fRemove, .fClrTd, .clrTd]
 
 def parseKind (w : String) : Option Kind := Kind.all.find? (fun k => k.toStr == w)
